@@ -70,7 +70,13 @@ func (br *xmpReader) readRootTag() (tag Tag, err error) {
 		}
 
 		if bytes.Equal(xmpRootTag[1:], buf[0:9]) {
-			_, err = br.r.ReadSlice('>') // Read until end of the StartTag (RootTag)
+			var line []byte
+			line, err = br.r.ReadSlice('>') // Read until end of the StartTag (RootTag)
+			if err == io.EOF && len(line) >= br.r.Size() {
+				// a start tag that fills the buffer is too long whether or not the
+				// reader has already reported the end of the stream with its bytes
+				err = bufio.ErrBufferFull
+			}
 			tag.t = startTag
 			tag.self = xmpns.XMPRootProperty
 			//fmt.Println("XMP Discarded:", discarded)
